@@ -178,7 +178,7 @@ func nativeRunCases(p *interp.Program, cases []nativeCase, workDir string, race 
 		var isolated, batch []int
 		for k, ci := range idxs {
 			c := cases[ci]
-			if c.kind == "cex" && (c.cexKind == "alloc" || c.cexKind == "engine" || strings.Contains(c.label, "alloc") || strings.Contains(c.label, "terminat") || strings.Contains(c.label, "stack")) {
+			if c.kind == "cex" && (c.cexKind == "alloc" || c.cexKind == "engine" || strings.Contains(c.label, "alloc") || strings.Contains(c.label, "terminat") || strings.Contains(c.label, "bounded-work") || strings.Contains(c.label, "stack")) {
 				isolated = append(isolated, k)
 			} else {
 				batch = append(batch, k)
